@@ -143,7 +143,8 @@ def read_routines(
         if r["type"] == "COROUTINE":
             if "name" not in r:
                 raise ValueError("Target for a routine not set.")
-            named_coroutines.append(SsbCoroutine(-1, r["name"]))
+            # (the decompiler looks up the name of a coroutine by the ID of the routine)
+            named_coroutines.append(SsbCoroutine(len(routine_infos), r["name"]))
             routine_infos.append(SsbRoutineInfo(SsbRoutineType.COROUTINE, -1))
             routine_ops.append(read_ops(r["ops"]))
         elif r["type"] == "GENERIC":
